@@ -62,6 +62,10 @@ def do_histories(args):
         lines = [sl]
         meta = [("start", cls)]
         for p, s in requests(rng, steps):
+            if rng.random() < 0.06:
+                # the allocator may refuse: the pair must stay sound then as well
+                lines.append("fault 1")
+                meta.append(("aux", None))
             lines.append(rt.crypt_line("crypt_ra", 2, p, s))
             meta.append(("ra", None))
             k = rng.random()
@@ -99,6 +103,8 @@ def do_histories(args):
             if mt[0] == "start":
                 cur = mt[1]
                 continue
+            if mt[0] == "aux":
+                continue
             acc.count("evaluations")
             if int(r.get("lerr", "0")) > 0:
                 viol("ledger-error", "double free / free or realloc of an unknown pointer")
@@ -112,15 +118,19 @@ def do_histories(args):
                     acc.count("grow_events")
                 if r["r"] not in ("N", "O"):
                     viol("stray-pointer", "result is not data->output of the block")
+                faulted = any(t.endswith("!") for t in ev.split(","))
+                if faulted:
+                    acc.count("faulted_calls")
                 if d == "0":
-                    viol("data-null", "*data is NULL after the call")
+                    if not (faulted and cur == "null"):
+                        viol("data-null", "*data is NULL after the call")
                     continue
                 if blk < 0:
                     viol("data-not-live", "*data is not a live block known to the ledger")
                     continue
                 if sz > blk:
                     viol("size-exceeds-block", "*size=%d but the block has %d bytes" % (sz, blk))
-                if sz < CD:
+                if sz < CD and not faulted:
                     viol("size-too-small", "*size=%d < sizeof(struct crypt_data) after a completed call" % sz)
                 if grew:
                     if r.get("az") != "1":
